@@ -389,6 +389,14 @@ class CodeBuilder:
         holder = "cls" if self.is_nailed else "_cls"
         self.add_line(f"return {holder}.{method_name}({unpacker_args_s})")
 
+    def _get_dialect_cache_name(self, kind: str) -> str:
+        # methods compiled for a dialect are kept per format and, for a
+        # generic class, per specialisation
+        cache_name = f"__dialect_{self.format_name}_{kind}_cache"
+        if self.initial_type_args:
+            cache_name += f"_{hash_type_args(self.initial_type_args)}"
+        return f"{cache_name}__"
+
     def _get_type_args_arg(self) -> str:
         # a postponed method of a generic class must be compiled for the
         # same type arguments
@@ -591,7 +599,7 @@ class CodeBuilder:
         unpacker_args = ", ".join(
             filter(None, ("cls", "d", self.get_unpack_method_flags()))
         )
-        cache_name = f"__dialect_{self.format_name}_unpacker_cache__"
+        cache_name = self._get_dialect_cache_name("unpacker")
         self.add_line(f"unpacker = cls.{cache_name}.get(dialect)")
         with self.indent("if unpacker is not None:"):
             self.add_line(f"return unpacker({unpacker_args})")
@@ -603,6 +611,7 @@ class CodeBuilder:
             f"first_method='{method_name}',"
             f"format_name='{self.format_name}',"
             f"default_dialect={type_name(self.default_dialect)}"
+            f"{self._get_type_args_arg()}"
             ").add_unpack_method()"
         )
         self.add_line(f"return cls.{cache_name}[dialect]({unpacker_args})")
@@ -619,7 +628,7 @@ class CodeBuilder:
         dialects_feature = self.is_code_generation_option_enabled(
             ADD_DIALECT_SUPPORT
         )
-        cache_name = f"__dialect_{self.format_name}_unpacker_cache__"
+        cache_name = self._get_dialect_cache_name("unpacker")
         if dialects_feature:
             with self.indent(f"if not '{cache_name}' in cls.__dict__:"):
                 self.add_line(f"cls.{cache_name} = {{}}")
@@ -1142,7 +1151,7 @@ class CodeBuilder:
         packer_args = ", ".join(
             filter(None, ("self", self.get_pack_method_flags()))
         )
-        cache_name = f"__dialect_{self.format_name}_packer_cache__"
+        cache_name = self._get_dialect_cache_name("packer")
         self.add_line(f"packer = self.__class__.{cache_name}.get(dialect)")
         self.add_line("if packer is not None:")
         if self.encoder is not None:
@@ -1165,6 +1174,7 @@ class CodeBuilder:
             f"first_method='{method_name}',"
             f"format_name='{self.format_name}',"
             f"default_dialect={type_name(self.default_dialect)}"
+            f"{self._get_type_args_arg()}"
             ").add_pack_method()"
         )
         self.add_line(
@@ -1206,7 +1216,7 @@ class CodeBuilder:
         dialects_feature = self.is_code_generation_option_enabled(
             ADD_DIALECT_SUPPORT
         )
-        cache_name = f"__dialect_{self.format_name}_packer_cache__"
+        cache_name = self._get_dialect_cache_name("packer")
         if dialects_feature:
             with self.indent(f"if not '{cache_name}' in cls.__dict__:"):
                 self.add_line(f"cls.{cache_name} = {{}}")
